@@ -28,6 +28,9 @@
 (*             covered by the serving leader's HW                          *)
 (*   nacked    history: ids negatively acknowledged                        *)
 (*   taint     ghost: known-defect tags whose culprit step has occurred    *)
+(*   lagging   followers that are up but have not applied the latest leader *)
+(*             change yet: they still follow the old leader in the old      *)
+(*             epoch (their fetch requests must be ignored by the new one)  *)
 (*                                                                         *)
 (* Every action X is given as a guard G_X(args) and a record N_X(args) of  *)
 (* the next value of every variable (so that trace validation can test     *)
@@ -40,17 +43,18 @@ CONSTANTS R,            \* replicas (strings)
           FetchMax,     \* max records per replication response
           HWFallback,   \* BOOLEAN: a follower may fail to reach a serving leader when reconciling
           ElectAlive,   \* BOOLEAN: a leader may be replaced while it is still up
-          ElectDown     \* BOOLEAN: a replica that is down may be elected
+          ElectDown,    \* BOOLEAN: a replica that is down may be elected
+          AllowLag      \* BOOLEAN: followers may apply a leader change later than the new leader
 
-VARIABLES meta, up, role, log, hw, hwDisk, ec, isrOff, pend, caught, obs, committed, nacked, taint
-vars == <<meta, up, role, log, hw, hwDisk, ec, isrOff, pend, caught, obs, committed, nacked, taint>>
+VARIABLES meta, up, role, log, hw, hwDisk, ec, isrOff, pend, caught, obs, committed, nacked, taint, lagging
+vars == <<meta, up, role, log, hw, hwDisk, ec, isrOff, pend, caught, obs, committed, nacked, taint, lagging>>
 
 NoAcks == [acks |-> {}, nacks |-> {}]
 
 \* the current value of every variable except the history `committed`
 Cur == [meta |-> meta, up |-> up, role |-> role, log |-> log, hw |-> hw, hwDisk |-> hwDisk,
         ec |-> ec, isrOff |-> isrOff, pend |-> pend, caught |-> caught, obs |-> NoAcks,
-        nacked |-> nacked, taint |-> taint]
+        nacked |-> nacked, taint |-> taint, lagging |-> lagging]
 
 -----------------------------------------------------------------------------
 Min(S) == CHOOSE x \in S : \A y \in S : x <= y
@@ -112,7 +116,7 @@ Init ==
   /\ isrOff = [r \in R |-> [x \in R |-> -1]]
   /\ pend = [r \in R |-> <<>>]
   /\ caught = [r \in R |-> FALSE]
-  /\ obs = NoAcks /\ committed = {} /\ nacked = {} /\ taint = {}
+  /\ obs = NoAcks /\ committed = {} /\ nacked = {} /\ taint = {} /\ lagging = {}
 
 \* committed = stored by every in-sync replica AND covered by the HW of the serving
 \* leader (the moment an ALL-policy acknowledgement can be sent); n = next values
@@ -128,6 +132,7 @@ Step(n) ==
   /\ meta' = n.meta /\ up' = n.up /\ role' = n.role /\ log' = n.log /\ hw' = n.hw
   /\ hwDisk' = n.hwDisk /\ ec' = n.ec /\ isrOff' = n.isrOff /\ pend' = n.pend
   /\ caught' = n.caught /\ obs' = n.obs /\ nacked' = n.nacked /\ taint' = n.taint
+  /\ lagging' = n.lagging
   /\ committed' = committed \cup NewlyCommitted(n)
 
 \* ---- publish: the leader's message processing loop handles one batch
@@ -157,7 +162,7 @@ N_PublishRejected(v) == [Cur EXCEPT !.obs = [acks |-> {}, nacks |-> {v}], !.nack
 \* ---- one replication round trip of follower f (request + response)
 \* late: the response carries the HW after (TRUE) or before (FALSE) the commit
 \* loop ran on the leader (the two run concurrently in the code)
-G_Fetch(f) == f # Leader /\ up[f] /\ role[f] = "follower" /\ Leading(Leader)
+G_Fetch(f) == f # Leader /\ up[f] /\ role[f] = "follower" /\ Leading(Leader) /\ f \notin lagging
 N_Fetch(f, late) ==
   LET l == Leader
       req == Newest(f)
@@ -183,7 +188,7 @@ N_LagExpire(f) == [Cur EXCEPT !.caught = [caught EXCEPT ![f] = FALSE]]
 
 \* ---- ISR shrink requested by the leader, committed by the controller,
 \* applied by every replica that is up (RemoveFromISR + commit check)
-G_Shrink(f) == Leading(Leader) /\ f # Leader /\ f \in meta.isr /\ ~caught[f]
+G_Shrink(f) == Leading(Leader) /\ f # Leader /\ f \in meta.isr /\ ~caught[f] /\ lagging = {}
 N_Shrink(f) ==
   LET l == Leader
       rm(io) == [x \in (DOMAIN io) \ {f} |-> io[x]]
@@ -197,7 +202,7 @@ N_Shrink(f) ==
 
 \* ---- ISR expand: the code's guard is time based (seen and caught up within
 \* the lag window), not "log end >= HW"
-G_Expand(f) == Leading(Leader) /\ f # Leader /\ f \notin meta.isr /\ up[f] /\ caught[f]
+G_Expand(f) == Leading(Leader) /\ f # Leader /\ f \notin meta.isr /\ up[f] /\ caught[f] /\ lagging = {}
 N_Expand(f) ==
   LET add(io) == [x \in (DOMAIN io) \cup {f} |-> IF x = f THEN -1 ELSE io[x]]
       lacks == \E c \in committed : ~Has(f, c.o, c.rec)
@@ -213,7 +218,8 @@ G_Crash(r) == up[r]
 N_Crash(r) == [Cur EXCEPT !.up = [up EXCEPT ![r] = FALSE],
                           !.role = [role EXCEPT ![r] = "none"],
                           !.pend = [pend EXCEPT ![r] = <<>>],
-                          !.hw = [hw EXCEPT ![r] = hwDisk[r]]]
+                          !.hw = [hw EXCEPT ![r] = hwDisk[r]],
+                          !.lagging = lagging \ {r}]
 
 \* follower f reconciles with leader n (truncateUncommitted): <<log, ec, tags>>
 \* reach: the leader answered; otherwise fall back to the local HW.
@@ -271,17 +277,21 @@ N_Restart(r, reach) ==
 \* ---- leader change committed by the controller: new leader n from the ISR,
 \* never the current leader; epoch = Raft index.  Applied first by n (if up),
 \* then by the other replicas that are up (they reconcile against n).
-G_Elect(n, reach) ==
+G_Elect(n, reach, lag) ==
   /\ n \in meta.isr /\ n # Leader
+  /\ lagging = {}
+  /\ lag \subseteq {f \in R : up[f] /\ f # n /\ f # Leader /\ role[f] = "follower"}
+  /\ (lag # {} => (AllowLag /\ up[n] /\ reach))
   /\ (ElectAlive \/ ~up[Leader])
   /\ (ElectDown \/ up[n])
   /\ (reach => up[n]) /\ (~reach => (HWFallback \/ ~up[n]))
-N_Elect(n, reach) ==
+N_Elect(n, reach, lag) ==
   LET e == meta.idx + 1
       ecn == IF up[n] THEN Assign(ec[n], e, Newest(n)) ELSE ec[n]
       res(f) == Reconcile(f, n, ecn, log[f], ec[f], reach)
-      fol == {f \in R : up[f] /\ f # n}
+      fol == {f \in R : up[f] /\ f # n /\ f \notin lag}
   IN [Cur EXCEPT !.meta = [meta EXCEPT !.leader = n, !.lepoch = e, !.idx = e],
+                 !.lagging = lag,
                  !.role = [r \in R |-> IF ~up[r] THEN "none" ELSE IF r = n THEN "leader" ELSE "follower"],
                  !.log = [r \in R |-> IF r \in fol THEN res(r)[1] ELSE log[r]],
                  !.ec = [r \in R |-> IF r = n THEN ecn ELSE IF r \in fol THEN res(r)[2] ELSE ec[r]],
@@ -301,7 +311,26 @@ DoExpand(f) == G_Expand(f) /\ Step(N_Expand(f))
 DoCheckpoint(r) == G_Checkpoint(r) /\ Step(N_Checkpoint(r))
 DoCrash(r) == G_Crash(r) /\ Step(N_Crash(r))
 DoRestart(r, reach) == G_Restart(r, reach) /\ Step(N_Restart(r, reach))
-DoElect(n, reach) == G_Elect(n, reach) /\ Step(N_Elect(n, reach))
+\* ---- a lagging follower's fetch: it still carries the old leader epoch, the
+\* new leader must ignore it (no progress is recorded, nothing is sent back)
+G_StaleFetch(f) == f \in lagging /\ up[f] /\ role[f] = "follower"
+N_StaleFetch(f) == Cur
+
+\* ---- a lagging follower applies the leader change: it reconciles with the leader
+G_ApplyMeta(f, reach) ==
+  /\ f \in lagging /\ up[f]
+  /\ (reach => Leading(Leader)) /\ (~reach => (HWFallback \/ ~Leading(Leader)))
+N_ApplyMeta(f, reach) ==
+  LET res == Reconcile(f, Leader, ec[Leader], log[f], ec[f], reach) IN
+  [Cur EXCEPT !.lagging = lagging \ {f},
+              !.role = [role EXCEPT ![f] = "follower"],
+              !.log = [log EXCEPT ![f] = res[1]],
+              !.ec = [ec EXCEPT ![f] = res[2]],
+              !.taint = taint \cup res[3]]
+
+DoElect(n, reach, lag) == G_Elect(n, reach, lag) /\ Step(N_Elect(n, reach, lag))
+DoStaleFetch(f) == G_StaleFetch(f) /\ Step(N_StaleFetch(f))
+DoApplyMeta(f, reach) == G_ApplyMeta(f, reach) /\ Step(N_ApplyMeta(f, reach))
 
 -----------------------------------------------------------------------------
 (* Properties *)
